@@ -334,7 +334,7 @@ An iteration: `Select`; nil → the error carried over from the previous iterati
 otherwise `countRequest(+1)`, round trip, `countRequest(-1)`; a failed round trip is remembered by
 `countFailure` (passive health checks with a `fail_duration`) and `tryAgain` decides whether the
 loop goes on: `lb_retries` not used up, and — unless the error is a dial error or "no upstreams" —
-the request is a GET (no `retry_match`). `try_duration` = 0, so `try_interval` stays 0.
+the request is a GET, or matches `lb_retry_match` if that is configured. `try_duration` = 0, so `try_interval` stays 0.
 Requests overlap only through requests that are *held* at the backend. -/
 
 /-- one upstream of the handler: dial identity, its own `max_requests` (0 = none), and what
@@ -355,6 +355,7 @@ structure PCfg where
   retries : Nat
   ups : List PUp
   cb : Bool := false   -- a circuit breaker is configured (`h.CB`, handed to every upstream by `provisionUpstream`)
+  rm : Nat := 0        -- `lb_retry_match`: 0 = none, else one matcher set `method`: 1 = POST, 2 = GET, 3 = GET POST
 deriving DecidableEq, Repr
 
 /-- are passive health checks configured at all (then every upstream gets the policy)? -/
@@ -440,10 +441,19 @@ def anyHeld (held : List (Option Nat)) : Bool := held.any Option.isSome
 def dropFails (c : PCfg) (held : List (Option Nat)) (fails : List Nat) : List Nat :=
   if c.dyn && !anyHeld held then fails.map (fun _ => 0) else fails
 
-/-- `tryAgain` with `left` retries still allowed -/
-def tryAgain (left : Nat) (e : PErr) (get : Bool) : Bool :=
+/-- may a request be retried after an error that is neither a dial error nor "no upstreams"?
+    Without `lb_retry_match`: GET only; with it: exactly the requests a matcher set matches -/
+def retryable (c : PCfg) (get : Bool) : Bool :=
+  match c.rm with
+  | 0 => get
+  | 1 => !get
+  | 2 => get
+  | _ => true
+
+/-- `tryAgain` with `left` retries still allowed; `ok` = `retryable` -/
+def tryAgain (left : Nat) (e : PErr) (ok : Bool) : Bool :=
   decide (0 < left) && (match e with
-    | .other => get
+    | .other => ok
     | _ => true)
 
 def statusOf : PErr → Nat
@@ -489,13 +499,13 @@ def attempt (c : PCfg) (hold get : Bool) : Nat → PErr → PState → List (Opt
   | left + 1, prev, s =>
     match selRes c s with
     | .none =>
-      if tryAgain (left + 1) (carried prev) get then
+      if tryAgain (left + 1) (carried prev) (retryable c get) then
         (none :: (attempt c hold get left (carried prev) (afterSel c s)).1,
           (attempt c hold get left (carried prev) (afterSel c s)).2)
       else ([none], .status (statusOf (carried prev)), afterSel c s)
     | .sel i =>
       if badAt c.ups i = 0 then ([], .sent i, afterSent c hold s i)
-      else if tryAgain (left + 1) (errAt c i) get then
+      else if tryAgain (left + 1) (errAt c i) (retryable c get) then
         (some i :: (attempt c hold get left (errAt c i) (afterFail c s i)).1,
           (attempt c hold get left (errAt c i) (afterFail c s i)).2)
       else ([some i], .status 502, afterFail c s i)
